@@ -23,6 +23,9 @@ import (
 type kFeat struct {
 	orgs, places, rc, pets bool
 	maxCount               int
+	// childIdx: the child stores own constraints of their own - a unique index on the plain child's field
+	// `title` (value "T-<id>") and a set index on the extended child's field `badges` (value ["g"])
+	childIdx bool
 }
 
 type kPerson struct {
@@ -99,6 +102,10 @@ func (m *kModel) Render() *dump.Tree {
 			} else {
 				mb.Values["lead"] = world.EncBool(*p.lead)
 			}
+			if m.sc.feat.childIdx {
+				mb.Values["title"] = world.EncString("T-" + id)
+				t.Ensure(m.sc.childIdxPath("title")...).Values["T-"+id] = []byte(id)
+			}
 		}
 		if p.prof {
 			pb := t.Ensure("root", "people", id, "prof")
@@ -106,6 +113,10 @@ func (m *kModel) Render() *dump.Tree {
 				pb.Values["nick"] = world.EncNil()
 			} else {
 				pb.Values["nick"] = world.EncString(*p.nick)
+			}
+			if m.sc.feat.childIdx {
+				t.Ensure("root", "people", id, "prof", "badges").Values[world.TypedKey("g")] = []byte{}
+				t.Ensure(append(m.sc.childIdxPath("badges"), "g")...).Values[world.TypedKey(id)] = []byte{}
 			}
 		}
 	}
@@ -143,6 +154,8 @@ type kitchen struct {
 	// parsed paged queries, one set per concurrent caller (a parsed query is not safe for concurrent use)
 	pagedPool sync.Pool
 	noReads   bool
+	// childIdxDir: bucket path (below root/indexes) of the child stores' own indexes
+	childIdxDir map[string][]string
 }
 
 // kPaged: paged / sorted queries evaluated through parent and child stores (id order, so the expected
@@ -248,13 +261,26 @@ func newKitchen(label string, feat kFeat) *kitchen {
 	k.mgr = world.NewStore(&world.Spec{Parent: k.people, ChildPath: []string{"mgr"}, Fields: []world.Field{
 		{Name: "name", Kind: world.KString}, {Name: "roles", Kind: world.KStringList}, {Name: "org", Kind: world.KStringP},
 		{Name: "lead", Kind: world.KBoolP, Child: true}}})
+	if feat.childIdx {
+		k.mgr.Spec.Fields = append(k.mgr.Spec.Fields, world.Field{Name: "title", Kind: world.KString, Child: true})
+	}
 	k.people.GrantSymbols(k.mgr)
 	k.mgr.AddSymbol("lead", ast.NodeTypeBool)
+	if feat.childIdx {
+		k.mgr.AddUniqueIndex(k.mgr.AddSymbol("title", ast.NodeTypeString))
+	}
 	k.prof = world.NewStore(&world.Spec{Parent: k.people, ChildPath: []string{"prof"}, Extended: true, Fields: []world.Field{
 		{Name: "name", Kind: world.KString}, {Name: "roles", Kind: world.KStringList}, {Name: "org", Kind: world.KStringP},
 		{Name: "nick", Kind: world.KStringP, Child: true}}})
+	if feat.childIdx {
+		k.prof.Spec.Fields = append(k.prof.Spec.Fields, world.Field{Name: "badges", Kind: world.KStringList, Child: true})
+	}
 	k.people.GrantSymbols(k.prof)
 	k.prof.AddSymbol("nick", ast.NodeTypeString)
+	if feat.childIdx {
+		k.prof.AddSetIndex(k.prof.AddSetSymbol("badges", ast.NodeTypeString))
+	}
+	k.childIdxDir = map[string][]string{"title": {k.mgr.GetEntityType(), "title"}, "badges": {k.prof.GetEntityType(), "badges"}}
 	k.buildOps()
 	return k
 }
@@ -313,7 +339,15 @@ func (k *kitchen) personRec(id, name string, roles []string, org *string, lead *
 	} else {
 		r.With("nick", *nick)
 	}
+	if k.feat.childIdx {
+		r.With("title", "T-"+id).With("badges", []string{"g"})
+	}
 	return r
+}
+
+// childIdxPath: where a child store keeps the index of one of its own fields (learned from the store itself).
+func (k *kitchen) childIdxPath(field string) []string {
+	return append([]string{"root", "indexes"}, k.childIdxDir[field]...)
 }
 
 func (m *kModel) nameTaken(id, name string) bool {
